@@ -1340,6 +1340,11 @@ def c05_r6_drop(ctx):
     cr = ctx.sites(f, 'TableTreeMut::clear_root_updates_and_close', exact=1)
     ctx.guarded(f, cr, [true_of(TM + '::storage_failure')])
     ctx.no_direct(f, [PA + '::rollback_all', TM + '::free'], 'Drop frees nothing directly')
+    # whichever arm is taken, an uncompleted transaction is dealt with: rolled back, its staged roots dropped
+    # (storage failed), or -- rollback skipped while unwinding -- the leak flagged so that it cannot be
+    # saved into a clean-shutdown snapshot
+    e_done = core.guard_edges(f, [Guard(place='self.completed', vals={'true'})])
+    ctx.must_pass(f, ab + cr + mk, exits='any', extra_cut_edges=e_done, what='an uncompleted transaction is rolled back, has its staged roots cleared, or marks the database as needing repair')
 
 
 def c05_r7_savepoint_symmetry(ctx):
@@ -3655,3 +3660,208 @@ def staged_root_rules(ctx):
             ctx._ob(ok, ctx.sample('arg-flow', f, c.line, 'the re-keyed update is the removed one'))
             if not ok:
                 ctx.violate('arg-flow|%s|rekeyed' % f.path, 'the staged update inserted under the new name is not the one removed under the old name', f, c.line)
+
+
+# ------------------------------------------------------------------------------------ rules added after the deletion survey
+def _ok_true_points(f):
+    """statements `_0 = Ok(const true)`"""
+    pts = []
+    for bi, b in enumerate(f.blocks):
+        if b['c']:
+            continue
+        for si, st in enumerate(b['s']):
+            if st[0] == 'a' and st[1][0] == 0 and not st[1][1] and st[2]['k'] == 'agg' and st[2].get('v') == 'Ok' and len(st[2]['o']) == 1:
+                o = st[2]['o'][0]
+                if o[0] == 'k' and o[2] is True:
+                    pts.append(Point(f, bi, si, 'return Ok(true)', st[3]))
+    return pts
+
+
+def allocator_snapshot_complete_rules(ctx):
+    ctx.set_rule('C11.R7', 'a saved allocator snapshot is complete: every region and the region tracker are written before success is reported')
+    f = ctx.fn(TM + '::try_save_allocator_state')
+    if f is None:
+        return
+    s_ = core.sym(f)
+    ins = ctx.sites(f, 'BtreeMut::insert_inplace', exact=2)
+    reg = [p for p in ins if core.flows_from_call(f, p.call.t['a'][2], 'BuddyAllocator::to_vec')]
+    trk = [p for p in ins if core.flows_from_call(f, p.call.t['a'][2], 'RegionTracker::to_vec')]
+    ctx.check(len(reg) == 1 and len(trk) == 1, 'floor|%s|keys' % f.path, 'one in-place write of a region allocator and one of the region tracker (found %d / %d)' % (len(reg), len(trk)), f, f.line)
+    if reg:
+        ctx.each_iteration_passes(f, reg, 'every region allocator is written into the snapshot (or the save is given up)', 'region-skipped', allow_return=True)
+        for p in reg:
+            ctx.flows(f, p, 2, from_call='BuddyAllocator::to_vec', what='the bytes written are the region allocator\'s serialisation')
+    okt = _ok_true_points(f)
+    ctx.check(len(okt) == 1, 'floor|%s|ok-true' % f.path, 'try_save_allocator_state reports success at one place', f, f.line)
+    if trk and okt:
+        r = core.reach(f, cut_blocks={p.bb for p in trk})
+        bad = [p for p in okt if core.point_reached(f, r, p.bb, p.idx)]
+        ctx._ob(not bad, ctx.sample('must-pass', f, okt[0].line, 'success only after the region tracker was written'))
+        if bad:
+            ctx.violate('must-pass|%s|tracker-skipped' % f.path, 'try_save_allocator_state can report success without writing the region tracker', f, bad[0].line)
+        for p in trk:
+            ctx.flows(f, p, 2, from_call='RegionTracker::to_vec', what='the bytes written are the tracker\'s serialisation')
+    if reg and okt:
+        # success is reported only after the region loop ran to completion: the loop's exhaustion edge dominates it
+        ctx.guarded(f, okt, [Guard(call='Iterator::next', vals={'None'})], 'success only after the region loop is exhausted')
+    ctx.held(f, reg + trk, 'self.state')
+
+
+def system_freed_store_rules(ctx):
+    ctx.set_rule('C06.R10', 'system-tree pages freed by a commit are all recorded: each drained page is stored or deferred, each chunk under a fresh key')
+    f = ctx.fn(WT + '::store_system_freed_pages')
+    if f is not None:
+        cls = [c for c in f.closures if c.calls_to('BtreeMut::insert_reserve')]
+        ctx.check(len(cls) == 1, 'floor|%s|closure' % f.path, 'the closure that writes SYSTEM_FREED_TABLE exists', f, f.line)
+        for cl in cls:
+            ir = ctx.sites(cl, 'BtreeMut::insert_reserve', exact=1)
+            pb = ctx.sites(cl, 'PageListMut::push_back', exact=1)
+            vp = ctx.sites(cl, 'Vec::push', exact=1)
+            clr = ctx.sites(cl, 'PageListMut::clear', exact=1)
+            ctx.each_iteration_passes(cl, pb + vp, 'every drained page is written into the record or deferred to the caller', 'page-dropped', allow_return=False)
+            ctx.order(cl, clr, pb, 'the reserved record is cleared before pages are appended')
+            # fresh key per chunk: from insert_reserve, the next insert_reserve is reached only through an assignment to pagination_id
+            pl = None
+            for n_, pl_ in cl.mir['dbg']:
+                if n_ == 'pagination_id' and not pl_[1]:
+                    pl = pl_[0]
+            ctx.check(pl is not None, 'floor|%s|pagination_id' % cl.path, 'the chunk counter exists', cl, cl.line)
+            if pl is not None and ir:
+                cuts = set()
+                for bi, b in enumerate(cl.blocks):
+                    for si, st in enumerate(b['s']):
+                        if st[0] == 'a' and st[1][0] == pl and not st[1][1] and st[2]['k'] != 'use':
+                            cuts.add((bi, si))
+                        elif st[0] == 'a' and st[1][0] == pl and not st[1][1] and st[2]['k'] == 'use' and st[2]['o'][0] != 'k':
+                            cuts.add((bi, si))
+                r = core.reach(cl, start=(ir[0].bb, ir[0].idx), cut_points=cuts, cut_blocks=core.error_blocks(cl))
+                again = any(cl.succ(bb_)[si_][0] == ir[0].bb for (bb_, si_) in r['edges'])
+                ctx._ob(not again, ctx.sample('must-pass', cl, ir[0].line, 'the chunk key advances before the next record is reserved'))
+                if again:
+                    ctx.violate('must-pass|%s|key-reused' % cl.path, 'a second SYSTEM_FREED_TABLE record can be reserved under the same (transaction, pagination) key: it would overwrite the previous chunk', cl, ir[0].line)
+                for p in ir:
+                    ctx.flows(cl, p, 1, from_call=WT + '::next_system_freed_pagination_id', what='the first key continues after the records already stored for this transaction')
+    f = ctx.fn(WT + '::non_durable_commit')
+    if f is not None:
+        st = ctx.sites(f, WT + '::store_system_freed_pages', exact=1)
+        fl = ctx.sites(f, 'TableTreeMut::flush_table_root_updates', exact=2)
+        if st and fl:
+            r = core.reach(f, cut_blocks={p.bb for p in fl})
+            ctx.check(st[0].bb not in r['term'], 'order|%s|flush-before-store' % f.path, 'system table roots are flushed before the system freed list is examined and stored', f, st[0].line)
+        vp = [cpoint(c) for c in f.calls_to('Vec::push')]
+        ctx.check(len(vp) == 1, 'floor|%s|post-commit-push' % f.path, 'unpersisted system pages are collected for release after the commit', f, f.line)
+        fu = ctx.sites(f, TM + '::free_if_unpersisted', exact=1)
+        if vp:
+            ctx.each_iteration_passes(f, vp, 'every unpersisted freed system page is collected for the post-commit release', 'unpersisted-dropped', allow_return=True)
+        if fu:
+            ctx.each_iteration_passes(f, fu, 'every collected page is released after the commit', 'post-commit-free-skipped', allow_return=True)
+        cm = ctx.sites(f, TM + '::non_durable_commit', exact=1)
+        ctx.order(f, cm, fu, 'collected pages are released only after the commit')
+
+
+def handle_close_rules(ctx):
+    ctx.set_rule('C17.R6', 'dropping a table handle closes it: the root and length are staged and the name is released')
+    n = 0
+    for pat, closer in (('<Table as Drop>::drop', WT + '::close_table'), ('<MultimapTable as Drop>::drop', WT + '::close_table'), ('<SystemTable as Drop>::drop', 'SystemNamespace::close_table')):
+        f = ctx.fn(pat)
+        if f is None:
+            continue
+        cl = ctx.sites(f, closer, exact=1)
+        ctx.must_pass(f, cl, exits='any', what='every drop of the handle reaches close_table')
+        n += 1
+    ctx.check(n >= 3, 'floor|handle-drops', 'table handle Drop impls analysed: %d' % n)
+    for pat, stage in (('TableNamespace::close_table', True), ('TableNamespace::close_table_without_update', False), ('SystemNamespace::close_table', True)):
+        f = ctx.fn(pat)
+        if f is None:
+            continue
+        s_ = core.sym(f)
+        if pat.startswith('TableNamespace'):
+            rm = [p for p in ctx.sites(f, 'BTreeMap::remove', exact=1) if 'open_tables' in s_.describe(s_.operand(p.call.t['a'][0]))]
+            ctx.check(len(rm) == 1, 'floor|%s|release-name' % f.path, 'the table name leaves open_tables', f, f.line)
+            ctx.must_pass(f, rm, exits='any', what='closing a table always releases its name')
+            for p in rm:
+                ctx.flows(f, p, 1, from_arg='name')
+        if stage:
+            su = ctx.sites(f, 'TableTreeMut::stage_update_table_root', exact=1)
+            ctx.must_pass(f, su, exits='any', what='closing a table always stages its root')
+            for p in su:
+                ctx.flows(f, p, 1, from_arg='name')
+                ctx.flows(f, p, 2, from_call='BtreeMut::get_root', what='the staged root is the handle\'s current root')
+                ctx.flows(f, p, 3, from_arg='length', what='the staged length is the caller\'s')
+    f = ctx.fn(WT + '::close_table')
+    if f is not None:
+        for p in ctx.sites(f, 'TableNamespace::close_table', exact=1):
+            ctx.flows(f, p, 1, from_arg='name')
+            ctx.flows(f, p, 2, from_arg='table')
+            ctx.flows(f, p, 3, from_arg='length')
+
+
+def commit_mode_setter_rules(ctx):
+    ctx.set_rule('C01.R10', 'the commit-mode setters record what the caller asked for')
+    for pat, field in ((WT + '::set_two_phase_commit', 'two_phase_commit'), (WT + '::set_quick_repair', 'quick_repair')):
+        f = ctx.fn(pat)
+        if f is None:
+            continue
+        st = ctx.stores(f, field, owner='WriteTransaction', floor=1)
+        s_ = core.sym(f)
+        for p in st:
+            stt = f.blocks[p.bb]['s'][p.idx]
+            ok = False
+            rv = stt[2]
+            if rv['k'] == 'use':
+                ls, calls, args, consts = core.flow_sources(f, rv['o'])
+                ok = bool(args) or bool(calls)
+            elif rv['k'] == 'agg':
+                ok = True
+            ctx._ob(ok, ctx.sample('arg-flow', f, p.line, '%s stores a value derived from its argument' % pat))
+            if not ok:
+                ctx.violate('arg-flow|%s|%s' % (f.path, field), 'the value stored to WriteTransaction.%s is a constant, not the caller\'s argument' % field, f, p.line)
+        ctx.must_pass(f, st, exits='success', what='the setter always stores')
+
+
+def cache_reset_rules(ctx):
+    ctx.set_rule('C02.R10', 'when in-memory state is discarded for the on-disk state, both caches are emptied before anything is read back')
+    f = ctx.fn(TM + '::clear_cache_and_reload')
+    if f is not None:
+        dw = ctx.sites(f, PCF + '::discard_write_buffer', exact=1)
+        iv = ctx.sites(f, PCF + '::invalidate_cache_all', exact=1)
+        rd = ctx.sites(f, [PCF + '::read_direct', PCF + '::sync_file'], floor=2)
+        ctx.order(f, dw, rd, 'buffered writes of the discarded state are dropped before the file is synced / read')
+        ctx.order(f, iv, rd, 'cached pages of the discarded state are dropped before the file is synced / read')
+    f = ctx.fn('Database::do_repair')
+    if f is not None:
+        rp = ctx.sites(f, TM + '::repair_primary_corrupted', exact=1)
+        cr = ctx.sites(f, TM + '::clear_read_cache', exact=2)
+        pv = ctx.sites(f, 'Database::primary_verifies', exact=2)
+        if rp and cr and pv:
+            # after the primary was rolled back, the cache is cleared before the trees are read again
+            r = core.reach(f, start=(rp[0].bb, rp[0].idx), cut_blocks={p.bb for p in cr} | core.error_blocks(f))
+            bad = [p for p in pv if p.bb in r['term']]
+            ctx._ob(not bad, ctx.sample('order', f, rp[0].line, 'read cache cleared between repair_primary_corrupted and the next verification'))
+            if bad:
+                ctx.violate('order|%s|stale-cache-after-rollback' % f.path, 'after repair_primary_corrupted() the trees are verified again without clearing the read cache (pages of the rolled-back commit may still be cached)', f, bad[0].line)
+        ccr = ctx.sites(f, TM + '::clear_recovery_required', exact=1)
+        if ccr and cr:
+            ctx.must_pass(f, cr, start=ccr[0], exits='success', what='the read cache is cleared after the allocator rebuild, before the repaired state is committed')
+    g = ctx.fn(TM + '::clear_read_cache')
+    if g is not None:
+        ctx.must_pass(g, ctx.sites(g, PCF + '::invalidate_cache_all', exact=1), exits='any')
+
+
+def compaction_progress_rules(ctx):
+    ctx.set_rule('C13.R5', 'a compaction pass that moved pages is committed: progress is never reported for work that is then rolled back')
+    f = ctx.fn('Database::compact')
+    if f is None:
+        return
+    cp = ctx.sites(f, WT + '::compact_pages', exact=1)
+    cm = ctx.sites(f, WT + '::commit', exact=1)
+    ab = ctx.sites(f, WT + '::abort', floor=1)
+    dr = ctx.sites(f, 'Database::drain_pending_free_pages', exact=2)
+    ctx.guarded(f, cm, [Guard(call=WT + '::compact_pages', vals={'true'}), Guard(call=WT + '::compact_pages', vals={'Ok'})], 'the relocation commit follows a successful compact_pages')
+    if cp and cm and dr:
+        e_false = core.guard_edges(f, [false_of(WT + '::compact_pages')])
+        r = core.reach(f, start=(cp[0].bb, cp[0].idx), cut_blocks={p.bb for p in cm} | core.error_blocks(f), cut_edges=e_false)
+        bad = [p for p in dr if p.bb in r['term']]
+        ctx._ob(not bad, ctx.sample('must-pass', f, cp[0].line, 'a pass that relocated pages is committed before the next drain'))
+        if bad:
+            ctx.violate('must-pass|%s|progress-without-commit' % f.path, 'compact() can go on to the next drain / pass after compact_pages() returned true without committing the relocation (the loop would report progress forever)', f, cp[0].line)
